@@ -126,7 +126,7 @@ def generate(rng, tier):
     n = rng.randrange(1, 8 if tier == "quick" else 10)
     if rng.random() < 0.03:
         n = rng.randrange(12, 33)  # a few dozen nodes: longer paths, deeper union-find trees, more PageRank sweeps
-    case = {"fn": fn, "n": n, "world": os.environ.get("VERIF_WORLD", "rust")}
+    case = {"fn": fn, "n": n, "world": os.environ.get("VERIF_WORLD", "rust"), "by_keyword": rng.random() < 0.2}
     dense = rng.random() < 0.004
     if dense:
         n = case["n"] = rng.randrange(8, 70)
@@ -221,6 +221,13 @@ def call(case, backend, edges=None):
     if backend is not None:
         kw["backend"] = backend
     name = case["fn"]
+    if case.get("by_keyword"):
+        # every argument by its documented name (the README calls bellman_ford(start=0, edges=..., n_nodes=4))
+        if name == "bellman_ford":
+            return fn(start=case["start"], edges=edges, n_nodes=case["n"], **kw)
+        if name in ("dijkstra_edges", "bfs_edges", "dfs_edges"):
+            return fn(n_nodes=case["n"], edges=edges, source=case["start"], **kw)
+        return fn(n_nodes=case["n"], edges=edges, **kw)
     if name == "bellman_ford":
         return fn(case["start"], edges, case["n"], **kw)
     if name in ("dijkstra_edges", "bfs_edges", "dfs_edges"):
